@@ -23,10 +23,10 @@ pub fn handles(id: &str) -> bool {
 
 pub fn rule(id: &str) -> String {
     match id {
-        "C16" => "evaluation = one value round trip (all 263 actions, 64 squares, 6 pieces, 4 directions: exhaustive) or one string fed to Action/Square/Piece/Direction::from_str under catch_unwind (all 475,255 strings of length <= 4 over a 26-symbol alphabet containing every boundary of the notation and 2/3/4-byte characters: exhaustive; longer and arbitrary Unicode strings and random u64 bitboards: sampled); oracle: no panic, Ok(v) => print(v) == s (upper-case piece letters allowed), reference grammar => Ok; non-trivial = string of length 1-3 whose first character is a letter, '`' or non-ASCII (it gets past the length test into slicing/arithmetic), or a value round trip".into(),
-        "C17" => "evaluation = one pair of play-phase states built with the public constructors that differ in exactly one hashed feature (content of one square among 13 contents, side, step, push/pull status among 641, or one piece relocated), whose transposition hashes must differ; the feature space is enumerated completely for every generated context (board, side, step, status); non-trivial = every such pair (all are distinct by construction; counted per distinct context x feature kind x feature value)".into(),
-        "C18" => "evaluation = one generated concurrent program (T threads sharing Arc<GameState>, each expanding / cloning / dropping / querying, with states handed across threads) whose per-thread transcripts are compared with the sequential run of the same program; plus the compile-time probe of Send + Sync for the public types; non-trivial = program with >= 2 threads expanding the same state and >= 1 state handed across threads".into(),
-        "C20" => "evaluation = one long capture-free game played through offered actions in a child process on a default-size thread, followed by clone / queries / one more action / drop of the clone / drop of the original, each acknowledged by a progress line; oracle = child exits 0 with all progress lines (a stack overflow is a fatal signal); non-trivial = history length >= 10000 as reported by the child; distinct by (seed, N, policy, profile)".into(),
+        "C16" => "evaluation = one value round trip (all 263 actions, 64 squares, 6 pieces, 4 directions: exhaustive) or one string fed to Action/Square/Piece/Direction::from_str under catch_unwind (all 475,255 strings of length <= 4 over a 26-symbol alphabet containing every boundary of the notation and 2/3/4-byte characters: exhaustive; longer and arbitrary Unicode strings and random u64 bitboards: sampled); oracle: no panic, Ok(v) => print(v) == s (upper-case piece letters allowed), reference grammar => Ok; non-trivial = string of length 1-3 whose first character is a letter, '`' or non-ASCII (it gets past the length test into slicing/arithmetic), or a value round trip; every value is also printed under formatter flags (text must be the plain text padded as a whole, or parse back) and after prints into failing sinks".into(),
+        "C17" => "evaluation = one pair of play-phase states built with the public constructors that differ in exactly one hashed feature (content of one square among 13 contents, side, step, push/pull status among 641, or one piece relocated), whose transposition hashes must differ; the feature space is enumerated completely for every generated context (board, side, step, status) and every pair is also asked back to back in both orders; along generated games the neighbours of reached states (641 statuses, other side, 13 contents of the squares last touched) are built around the state's own per-turn record, history and capture flag; non-trivial = every such pair (all are distinct by construction; counted per distinct context x feature kind x feature value)".into(),
+        "C18" => "evaluation = one generated concurrent program (T threads sharing Arc<GameState>, each expanding / cloning / dropping / querying, with states handed across threads) whose per-thread transcripts are compared with the sequential run of the same program; plus the exchange scenario (threads playing different lines and expanding each other's states), the sibling scenario (states of one turn each queried repeatedly by its own thread), cold starts in fresh processes, racing releases of long shared histories, and the compile-time probe of Send + Sync for the public types; non-trivial = program with >= 2 threads expanding the same state and >= 1 state handed across threads".into(),
+        "C20" => "evaluation = one long capture-free game played through offered actions in a child process on a default-size thread, followed by clone / queries / one more action / every way of letting go of sole-owner copies (drop, clone_from, assignment, mem::replace, parts, containers, unwinding, capture), each acknowledged by a progress line; policies: one-step turns, 1-3 step turns, out-and-back (every position of the first half recurs in the second); oracle = child exits 0 with all progress lines (a stack overflow is a fatal signal); non-trivial = history length >= 10000 as reported by the child; distinct by (seed, N, policy, profile)".into(),
         "C04" | "C05" | "C06" | "C07" | "C19" => format!("{}; states include history-injected forks (a played mid-turn or turn-start state whose repetition history has been extended through the public constructors so that turn-ending actions become third occurrences), counted like any other state", registry::rule(id)),
         "C01" | "C12" => format!("{}; states include play states rebuilt through GameState::new / PlayPhase::new", registry::rule(id)),
         _ => registry::rule(id).to_string(),
